@@ -363,6 +363,10 @@ def check(prop: str, tier: str) -> Report:
     nonconf_r = judge(rep, prop, rand, v2, "C->S random scenario")
     extra_cov: dict = {}
     sim_cov: dict = {}
+    if prop == "C01":
+        # symbolic: the counter logic respects the caps for arbitrary max_attempts / limits
+        from .apalache import caps_symbolic
+        sim_cov["symbolic"] = caps_symbolic(tier)
     if tier == "thorough":
         # the full product of all dimensions, explored by random simulation: TLC checks every
         # monitor along each random behaviour and exports it; all of them are replayed
